@@ -1,4 +1,5 @@
 import FormulaicVerif.Proofs.C06
+import FormulaicVerif.Proofs.C06History
 /-! # C06 — Missing-data policy removes exactly the right rows, by position, and reports it
 
 Property theorems only (helper lemmas: `Proofs/C06.lean`; model: `Model/Nulls.lean`; reference
@@ -14,6 +15,7 @@ and record, as decided facts, the three defects the check reported there (label-
 
 namespace FormulaicVerif.Props.C06
 open FormulaicVerif.Model.Nulls FormulaicVerif.Spec.Nulls FormulaicVerif.Proofs.C06
+open FormulaicVerif.Model.NullsHist FormulaicVerif.Proofs.C06H
 
 variable {L ρ : Type} [DecidableEq L]
 
@@ -232,6 +234,128 @@ theorem per_part_calls (labels : List L) (n : Nat) (o : Output) (parts : List (P
 
 example : oneCall ⟨.modelSpecs, true, true, false, some [0]⟩ = false := rfl
 
+/-! ## Histories: several calls on ONE materializer object (`Model/NullsHistory.lean`)
+
+A materializer object keeps `factor_cache` / `encoded_cache` between calls; `get_model_matrix`
+empties them first (`reset = true`). -/
+
+/-- C06.5  Reusing a materializer object is unobservable: for EVERY history of
+`get_model_matrix` calls on one object (any length; any formulas, sharing factors or not; any
+policies, output types and caller sets per call), starting from ANY cache content, the result of
+each call — matrices, caller's set afterwards, or error — is the result of the same call on a
+materializer made for it. (`KeysConsistent`: within a call one expression has one value.) -/
+theorem materializer_reuse (labels : List L) (n : Nat) (calls : List (Call ρ)) (c0 : Caches ρ)
+    (hk : ∀ k ∈ calls, KeysConsistent k.parts) :
+    runHistory true current labels n calls c0 =
+      calls.map (fun k => liftE (freshCall current labels n k)) :=
+  runHistory_reset current labels n calls c0 hk
+
+/-- a two-call history whose calls share the expression `a` (and whose caches are not empty to
+begin with) satisfies the hypothesis -/
+example : ∀ k ∈ ([⟨.drop, .numpy, [⟨.pandas, true, [⟨"a", ⟨[1, 2], [1], .series, .default⟩⟩]⟩], none⟩,
+      ⟨.raise, .pandas, [⟨.pandas, false, [⟨"a", ⟨[1, 2], [1], .series, .default⟩⟩]⟩,
+                         ⟨.pandas, true, [⟨"a", ⟨[1, 2], [1], .series, .default⟩⟩,
+                                          ⟨"b", ⟨[3, 4], [], .ndarray, .hashed⟩⟩]⟩], some [0]⟩] :
+      List (Call Nat)), KeysConsistent k.parts := by
+  intro k hk
+  simp only [List.mem_cons, List.not_mem_nil, or_false] at hk
+  rcases hk with rfl | rfl
+  · intro a ha b hb _
+    simp only [List.flatMap_cons, List.flatMap_nil, List.append_nil, List.mem_singleton] at ha hb
+    rw [ha, hb]
+  · intro a ha b hb hab
+    simp only [List.flatMap_cons, List.flatMap_nil, List.append_nil, List.cons_append, List.nil_append,
+      List.mem_cons, List.not_mem_nil, or_false] at ha hb
+    rcases ha with rfl | rfl | rfl <;> rcases hb with rfl | rfl | rfl <;>
+      first | rfl | exact absurd hab (by decide)
+
+/-- C06.5a  Hence the property's row rule holds for every call of every history: the `i`-th call
+on a used materializer object, under the drop policy, yields exactly the rows that are null in no
+factor of THIS call and that THIS call's caller did not list (in order, with their labels), and
+this caller's set ends up as exactly the set of positions removed — whatever earlier calls on the
+object evaluated, dropped or raised. -/
+theorem reuse_drop_exact (labels : List L) (n : Nat) (calls : List (Call ρ)) (c0 : Caches ρ)
+    (hk : ∀ k ∈ calls, KeysConsistent k.parts) (i : Nat) (k : Call ρ) (hi : calls[i]? = some k)
+    (hpol : k.pol = .drop) (hl : labels.length = n) (hwf : WF n (k.parts.map KPart.part))
+    (hc : CallerOK n k.dropIn) :
+    ∃ r, (runHistory true current labels n calls c0)[i]? = some (.ok r) ∧
+      r.mats = (k.parts.map KPart.part).map (expectedMatrix labels
+        (keptPositions n (callerRows k.dropIn ++ allNulls (k.parts.map KPart.part))) k.out) ∧
+      ∀ s, k.dropIn = some s → ∃ s', r.callerAfter = some s' ∧ s'.Nodup ∧
+        (∀ j, j ∈ s' ↔ j ∈ s ∨ j ∈ allNulls (k.parts.map KPart.part)) ∧
+        (∀ j, j < n → (j ∈ s' ↔
+          j ∉ keptPositions n (callerRows k.dropIn ++ allNulls (k.parts.map KPart.part)))) := by
+  let c : CallRec := ⟨.materializer, decide (1 < k.parts.length), false, true, k.dropIn⟩
+  obtain ⟨r, hr, hm⟩ := drop_exact labels n k.out (k.parts.map KPart.part) c hl hwf hc rfl
+  have hf : freshCall current labels n k = .ok r := by
+    unfold freshCall
+    rw [hpol]
+    exact hr
+  refine ⟨r, ?_, hm, ?_⟩
+  · rw [materializer_reuse labels n calls c0 hk, List.getElem?_map, hi, Option.map_some, hf]
+    rfl
+  · intro s hs
+    obtain ⟨r', s', hr', h1, h2, h3, h4⟩ :=
+      dropset_reported labels n k.out (k.parts.map KPart.part) c s hl hwf hc rfl hs
+    rw [hr] at hr'
+    cases hr'
+    exact ⟨s', h1, h2, h3, h4⟩
+
+/-- C06.5b  … and under the raise policy the `i`-th call on a used object fails if and only if a
+factor of THIS call has a null (nulls met, dropped or ignored by earlier calls do not count, and
+are not forgotten either); under the ignore policy it removes the caller's rows only. -/
+theorem reuse_raise_ignore (labels : List L) (n : Nat) (calls : List (Call ρ)) (c0 : Caches ρ)
+    (hk : ∀ k ∈ calls, KeysConsistent k.parts) (i : Nat) (k : Call ρ) (hi : calls[i]? = some k)
+    (hl : labels.length = n) (hwf : WF n (k.parts.map KPart.part)) (hc : CallerOK n k.dropIn) :
+    (k.pol = .raise →
+      (((runHistory true current labels n calls c0)[i]? = some (.error (.rows .nullsPresent))) ↔
+        allNulls (k.parts.map KPart.part) ≠ []) ∧
+      (allNulls (k.parts.map KPart.part) = [] →
+        (runHistory true current labels n calls c0)[i]? = some (.ok
+          ⟨(k.parts.map KPart.part).map
+              (expectedMatrix labels (keptPositions n (callerRows k.dropIn)) k.out), k.dropIn⟩))) ∧
+    (k.pol = .ignore →
+      (runHistory true current labels n calls c0)[i]? = some (.ok
+        ⟨(k.parts.map KPart.part).map
+            (expectedMatrix labels (keptPositions n (callerRows k.dropIn)) k.out), k.dropIn⟩)) := by
+  let c : CallRec := ⟨.materializer, decide (1 < k.parts.length), false, true, k.dropIn⟩
+  have hrun : (runHistory true current labels n calls c0)[i]? =
+      some (liftE (freshCall current labels n k)) := by
+    rw [materializer_reuse labels n calls c0 hk, List.getElem?_map, hi, Option.map_some]
+  rw [hrun]
+  constructor
+  · intro hpol
+    obtain ⟨h1, h2, h3⟩ := raise_iff labels n k.out (k.parts.map KPart.part) c hl hwf hc rfl
+    have hf : freshCall current labels n k =
+        call current labels n .raise k.out (k.parts.map KPart.part) c := by
+      unfold freshCall
+      rw [hpol]
+    rw [hf]
+    constructor
+    · constructor
+      · intro h
+        apply h1.mp
+        cases hcall : call current labels n .raise k.out (k.parts.map KPart.part) c with
+        | error e => exact ⟨e, rfl⟩
+        | ok r =>
+          rw [hcall] at h
+          cases h
+      · intro h
+        obtain ⟨e, he⟩ := h1.mpr h
+        rw [he, h2 e he]
+        rfl
+    · intro h
+      rw [h3 h]
+      rfl
+  · intro hpol
+    obtain ⟨h1, _⟩ := ignore_keeps labels n k.out (k.parts.map KPart.part) c hl hwf hc rfl
+    have hf : freshCall current labels n k =
+        call current labels n .ignore k.out (k.parts.map KPart.part) c := by
+      unfold freshCall
+      rw [hpol]
+    rw [hf, h1]
+    rfl
+
 /-! ## The tree before the repairs (`legacy`): decided witnesses of the three defects
 
 Each was replayed on the real code before the corresponding `fix:` commit (corpus/C06). -/
@@ -309,5 +433,37 @@ theorem legacy_hashed_ignores_drop_rows :
     call legacy [0, 1, 2] 3 .drop .pandas
       [⟨.pandas, true, [⟨[0, 1, 2], [], .ndarray, .hashed⟩, ⟨[0, 1, 2], [1], .series, .default⟩]⟩]
       ⟨.sugar, false, false, true, none⟩ = .error .lengthMismatch := by decide
+
+/-! ### the tree before `get_model_matrix` emptied the caches (`reset = false`)
+
+Replayed on the real code with commit 6a9a8f6 reverted (corpus/C06/h1-*). -/
+
+private def hRid : KFactor Nat := ⟨"rid", ⟨[0, 1, 2, 3], [], .series, .default⟩⟩
+private def hA : KFactor Nat := ⟨"a", ⟨[0, 1, 2, 3], [1], .series, .default⟩⟩
+private def hB : KFactor Nat := ⟨"b", ⟨[0, 1, 2, 3], [2], .series, .default⟩⟩
+
+/-- Reused object: `m = PandasMaterializer(df)`; `m.get_model_matrix("rid + a", drop_rows=set())` is right
+(row 1 goes). `m.get_model_matrix("rid + a + b", drop_rows=set())` then skips the null check of the
+cached `a`: the set reports `{2}` only, and the columns of `rid` and `a` (taken from
+`encoded_cache`, rows 0, 2, 3) sit next to `b` with rows 0, 1, 3. A third call with
+`na_action="raise"` does not raise for the null in `a` but fails on a length mismatch. -/
+theorem no_reset_second_call_skips_null_checks :
+    runHistory false current [0, 1, 2, 3] 4
+      [⟨.drop, .numpy, [⟨.pandas, true, [hRid, hA]⟩], some []⟩,
+       ⟨.drop, .numpy, [⟨.pandas, true, [hRid, hA, hB]⟩], some []⟩,
+       ⟨.raise, .numpy, [⟨.pandas, true, [hRid, hA]⟩], none⟩] Caches.empty =
+    [.ok ⟨[⟨3, some 3, [[0, 2, 3], [0, 2, 3]], .none⟩], some [1]⟩,
+     .ok ⟨[⟨3, some 3, [[0, 2, 3], [0, 2, 3], [0, 1, 3]], .none⟩], some [2]⟩,
+     .error (.rows .lengthMismatch)] := by decide
+
+/-- … whereas the tree under test answers every call as a new object would. -/
+theorem current_reuse_ok :
+    runHistory true current [0, 1, 2, 3] 4
+      [⟨.drop, .numpy, [⟨.pandas, true, [hRid, hA]⟩], some []⟩,
+       ⟨.drop, .numpy, [⟨.pandas, true, [hRid, hA, hB]⟩], some []⟩,
+       ⟨.raise, .numpy, [⟨.pandas, true, [hRid, hA]⟩], none⟩] Caches.empty =
+    [.ok ⟨[⟨3, some 3, [[0, 2, 3], [0, 2, 3]], .none⟩], some [1]⟩,
+     .ok ⟨[⟨2, some 2, [[0, 3], [0, 3], [0, 3]], .none⟩], some [1, 2]⟩,
+     .error (.rows .nullsPresent)] := by decide
 
 end FormulaicVerif.Props.C06
